@@ -119,6 +119,9 @@ pub fn run() {
         let mut vio = vec![];
         let mut smp = vec![];
         let m = monitors.clone();
+        let mut cfg = cfg.clone();
+        cfg.focus = vec!["C15".to_string()];
+        let cfg = &cfg;
         let stats = mc::explore(&limits, |h: &[Ev]| rt::run(run_history_with(cfg, m.clone(), h, true, &d)), |v, _| vio.push(v), |h, o| {
             if o.enabled.is_empty() {
                 smp.push(format!("{:?}", h))
